@@ -17,7 +17,9 @@ Proved here:
   * `find_uv_step_sound`           the arithmetic step of `find_uv`: the returned (u, v) satisfies u·d1 + v·d2 = 2^i3·target, u > 0;
   * `L{1,3,5}_fdi_index_range`     `fixed_degree_isogeny` (small case): for lo ≤ bits(u) ≤ hi (table- and p-derived) the doubling count is
                                    ≥ 0, the strategy row index is inside the table and u < 2^length; `L1_fdi_index_negation`: outside the range
-                                   the C ints are negative / beyond the table (→ C04).
+                                   the C ints would be negative / beyond the table;
+  * `fdi_guard_text`, `fdi_guard_sound`, `L1_fdi_guard_range`   since fix d48f5af the C code guards this range itself: the guard re-extracted from
+                                   the C text is the model's, and every call it lets through has its indices in range (all ints).
 PARTIAL (not formalised): Deuring correspondence and Kani's lemma — "the returned curve/basis is the image under an isogeny of
 degree N(I)", "equivalent ideals give isomorphic curves": checked by tools/props/c13.py (exact order 2^f of the image points,
 pairing raised to N(I), equal j-invariants for equivalent ideals, norms and containment of β1, β2).
@@ -27,6 +29,7 @@ import SqiModel.IdealKernel
 import SqiGen.Tables1
 import SqiGen.Tables3
 import SqiGen.Tables5
+import SqiGen.FdiGuard
 
 set_option maxRecDepth 100000
 
@@ -173,5 +176,31 @@ open SqiModel.IdealKernel in
 /-- NEGATION outside the range (level 1 numbers): bits(u) = 19 gives a negative doubling count (and row 1, whose strategy
     is for a longer chain than 2^f allows), bits(u) = 152 indexes row 134 of a 134-row table — the C code has no check (→ C04) -/
 theorem L1_fdi_index_negation : fdiDblCount 248 251 19 < 0 ∧ ¬ (fdiRow 248 251 152 < 134) ∧ ¬ ((133 : ℤ) < fdiLength 251 133) := by decide
+
+/-! ## the guard of `fixed_degree_isogeny` (fix d48f5af), re-extracted from the C text (tie T, tools/translate/fdiguard.py) -/
+
+/-- the guard in the C text is exactly the model's `fdiGuardRejects` (three comparisons, in this order) -/
+theorem fdi_guard_text : SqiGen.FdiGuard.rejectAtoms = [("length+2", ">", "T"), ("T-length", ">=", "rows"), ("u_bitsize", ">", "length")] := by
+  decide +kernel
+
+open SqiModel.IdealKernel in
+/-- FULL STRENGTH (all C ints): whenever the guard lets a call through, the doubling count is ≥ 0, the strategy row index is inside the table
+    (and ≥ 2), and bits(u) ≤ length, hence u < 2^length — for every torsion, table size, bits(p), bits(u) -/
+theorem fdi_guard_sound (T rows bp b : ℤ) (h : fdiGuardRejects T rows (fdiLength bp b) b = false) :
+    0 ≤ fdiDblCount T bp b ∧ 2 ≤ fdiRow T bp b ∧ fdiRow T bp b < rows ∧ b ≤ fdiLength bp b := by
+  unfold fdiGuardRejects at h
+  simp only [Bool.or_eq_false_iff, decide_eq_false_iff_not, not_lt, not_le] at h
+  obtain ⟨⟨h1, h2⟩, h3⟩ := h
+  unfold fdiDblCount fdiRow
+  refine ⟨by omega, by omega, by omega, by omega⟩
+
+open SqiModel.IdealKernel in
+/-- and the guard is not vacuous / not too strict at level 1: it accepts exactly 20 ≤ bits(u) ≤ 133 -/
+theorem L1_fdi_guard_range (b : ℤ) : fdiGuardRejects 248 134 (fdiLength 251 b) b = false ↔ (20 ≤ b ∧ b ≤ 133) := by
+  unfold fdiGuardRejects fdiLength
+  simp only [Bool.or_eq_false_iff, decide_eq_false_iff_not, not_lt, not_le]
+  constructor
+  · rintro ⟨⟨h1, h2⟩, h3⟩; omega
+  · intro h; refine ⟨⟨by omega, by omega⟩, by omega⟩
 
 end SqiProps.C13
